@@ -14,7 +14,7 @@ meta["what_i_ran"] = {
     "demo_with_change": "exit=1" if "== demo WITH change\nexit=1" in log else log,
     "demo_without_change": "exit=0" if "== demo WITHOUT change\nexit=0" in log else log,
     "test_suite_with_change": [l for l in log.split("\n") if "passed" in l or "failed" in l][-1:] or ["?"],
-    "commands": ["PYTHONPATH=<worktree> /venv/bin/python demo.py (with / without the change, via git stash)",
+    "commands": ["PYTHONPATH=<worktree> /venv/bin/python demo.py (with / without the change, via git checkout -- lnn / git apply patch.diff)",
                  "/venv/bin/python -m pytest -q -p no:cacheprovider --timeout=900 (in the worktree, with the change)",
                  "tools/try_seed.sh seeded/%s/patch.diff <checks> (apply to /repo, run quick checks, restore)" % sid],
 }
